@@ -627,3 +627,166 @@ func lemmaHeaderRoundTrip(f *TimeBucketInfo) {
 //@ ensures #order: len(cs.orderedNames) == len(keepList) && forall(k, 0, len(keepList), same(cs.orderedNames[k], keepList[k]))
 //@ ensures #data: forall(k, 0, len(keepList), in(keepList[k], cs.columns) && cs.columns[keepList[k]] == old(cs.columns[keepList[k]]))
 //@ ensures #only: forallstr(n, pattern(cs.columns[n]), in(n, cs.columns) ==> existsint(k, 0 <= k && k < len(keepList) && same(n, keepList[k])))
+
+// ---------------------------------------------------------------------------------------------
+// C29 (reader half): the typed column extractors read, for row k, exactly the element-size bytes at
+// offset + k*reclen of the row buffer, nothing is read outside the buffer, and the result has one element per row.
+// f32OfBits / f64OfBits: the IEEE-754 value of a bit pattern (abstract: the contracts say WHICH bytes are read).
+//@ ghost func f32OfBits(bits int) real
+//@ ghost func f64OfBits(bits int) real
+
+//@ func ToUInt16
+//@ props C29
+//@ trusted "unsafe 2-byte little-endian read; only byte 0 is bounds-checked by the code"
+//@ pure
+//@ requires #nonempty: len(b) >= 1
+//@ requires #nooverread: len(b) >= 2
+//@ ensures result == le16(b, 0)
+
+//@ func ToUInt64
+//@ props C29
+//@ trusted "unsafe 8-byte little-endian read; only byte 0 is bounds-checked by the code"
+//@ pure
+//@ requires #nonempty: len(b) >= 1
+//@ requires #nooverread: len(b) >= 8
+//@ ensures result == le64(b, 0)
+
+//@ func ToFloat32
+//@ props C29
+//@ trusted "unsafe 4-byte little-endian read reinterpreted as IEEE-754 binary32; only byte 0 is bounds-checked by the code"
+//@ pure
+//@ requires #nonempty: len(b) >= 1
+//@ requires #nooverread: len(b) >= 4
+//@ ensures result == f32OfBits(le32(b, 0))
+
+//@ func ToFloat64
+//@ props C29
+//@ trusted "unsafe 8-byte little-endian read reinterpreted as IEEE-754 binary64; only byte 0 is bounds-checked by the code"
+//@ pure
+//@ requires #nonempty: len(b) >= 1
+//@ requires #nooverread: len(b) >= 8
+//@ ensures result == f64OfBits(le64(b, 0))
+
+//@ func getFloat32Column
+//@ props C29
+//@ option nooverflow
+//@ requires #shape: 0 <= offset && 0 < reclen && 0 <= nrecs && (nrecs > 0 ==> reclen <= len(data))
+//@ requires #fits: nrecs > 0 ==> offset + (nrecs-1)*reclen + 4 <= len(data)
+//@ loop 0 invariant #idx: 0 <= i && i <= nrecs && cursor == offset + i*reclen && len(col) == nrecs && fresh(col)
+//@ loop 0 invariant #read: forall(k, 0, i, col[k] == f32OfBits(le32(data, offset + k*reclen)))
+//@ loop 0 decreases nrecs - i
+//@ ensures #len: len(col) == nrecs
+//@ ensures #exact: forall(k, 0, nrecs, col[k] == f32OfBits(le32(data, offset + k*reclen)))
+
+//@ func getFloat64Column
+//@ props C29
+//@ option nooverflow
+//@ requires #shape: 0 <= offset && 0 < reclen && 0 <= nrecs && (nrecs > 0 ==> reclen <= len(data))
+//@ requires #fits: nrecs > 0 ==> offset + (nrecs-1)*reclen + 8 <= len(data)
+//@ loop 0 invariant #idx: 0 <= i && i <= nrecs && cursor == offset + i*reclen && len(col) == nrecs && fresh(col)
+//@ loop 0 invariant #read: forall(k, 0, i, col[k] == f64OfBits(le64(data, offset + k*reclen)))
+//@ loop 0 decreases nrecs - i
+//@ ensures #len: len(col) == nrecs
+//@ ensures #exact: forall(k, 0, nrecs, col[k] == f64OfBits(le64(data, offset + k*reclen)))
+
+//@ func getInt16Column
+//@ props C29
+//@ option nooverflow
+//@ requires #shape: 0 <= offset && 0 < reclen && 0 <= nrecs && (nrecs > 0 ==> reclen <= len(data))
+//@ requires #fits: nrecs > 0 ==> offset + (nrecs-1)*reclen + 2 <= len(data)
+//@ loop 0 invariant #idx: 0 <= i && i <= nrecs && cursor == offset + i*reclen && len(col) == nrecs && fresh(col)
+//@ loop 0 invariant #read: forall(k, 0, i, col[k] == sle16(data, offset + k*reclen))
+//@ loop 0 decreases nrecs - i
+//@ ensures #len: len(col) == nrecs
+//@ ensures #exact: forall(k, 0, nrecs, col[k] == sle16(data, offset + k*reclen))
+
+//@ func getInt32Column
+//@ props C29
+//@ option nooverflow
+//@ requires #shape: 0 <= offset && 0 < reclen && 0 <= nrecs && (nrecs > 0 ==> reclen <= len(data))
+//@ requires #fits: nrecs > 0 ==> offset + (nrecs-1)*reclen + 4 <= len(data)
+//@ loop 0 invariant #idx: 0 <= i && i <= nrecs && cursor == offset + i*reclen && len(col) == nrecs && fresh(col)
+//@ loop 0 invariant #read: forall(k, 0, i, col[k] == sle32(data, offset + k*reclen))
+//@ loop 0 decreases nrecs - i
+//@ ensures #len: len(col) == nrecs
+//@ ensures #exact: forall(k, 0, nrecs, col[k] == sle32(data, offset + k*reclen))
+
+//@ func getInt64Column
+//@ props C29
+//@ option nooverflow
+//@ requires #shape: 0 <= offset && 0 < reclen && 0 <= nrecs && (nrecs > 0 ==> reclen <= len(data))
+//@ requires #fits: nrecs > 0 ==> offset + (nrecs-1)*reclen + 8 <= len(data)
+//@ loop 0 invariant #idx: 0 <= i && i <= nrecs && cursor == offset + i*reclen && len(col) == nrecs && fresh(col)
+//@ loop 0 invariant #read: forall(k, 0, i, col[k] == sle64(data, offset + k*reclen))
+//@ loop 0 decreases nrecs - i
+//@ ensures #len: len(col) == nrecs
+//@ ensures #exact: forall(k, 0, nrecs, col[k] == sle64(data, offset + k*reclen))
+
+//@ func getUInt8Column
+//@ props C29
+//@ option nooverflow
+//@ requires #shape: 0 <= offset && 0 < reclen && 0 <= nrecs && (nrecs > 0 ==> reclen <= len(data))
+//@ requires #fits: nrecs > 0 ==> offset + (nrecs-1)*reclen + 1 <= len(data)
+//@ loop 0 invariant #idx: 0 <= i && i <= nrecs && cursor == offset + i*reclen && len(col) == nrecs && fresh(col)
+//@ loop 0 invariant #read: forall(k, 0, i, col[k] == le8(data, offset + k*reclen))
+//@ loop 0 decreases nrecs - i
+//@ ensures #len: len(col) == nrecs
+//@ ensures #exact: forall(k, 0, nrecs, col[k] == le8(data, offset + k*reclen))
+
+//@ func getUInt16Column
+//@ props C29
+//@ option nooverflow
+//@ requires #shape: 0 <= offset && 0 < reclen && 0 <= nrecs && (nrecs > 0 ==> reclen <= len(data))
+//@ requires #fits: nrecs > 0 ==> offset + (nrecs-1)*reclen + 2 <= len(data)
+//@ loop 0 invariant #idx: 0 <= i && i <= nrecs && cursor == offset + i*reclen && len(col) == nrecs && fresh(col)
+//@ loop 0 invariant #read: forall(k, 0, i, col[k] == le16(data, offset + k*reclen))
+//@ loop 0 decreases nrecs - i
+//@ ensures #len: len(col) == nrecs
+//@ ensures #exact: forall(k, 0, nrecs, col[k] == le16(data, offset + k*reclen))
+
+//@ func getUInt32Column
+//@ props C29
+//@ option nooverflow
+//@ requires #shape: 0 <= offset && 0 < reclen && 0 <= nrecs && (nrecs > 0 ==> reclen <= len(data))
+//@ requires #fits: nrecs > 0 ==> offset + (nrecs-1)*reclen + 4 <= len(data)
+//@ loop 0 invariant #idx: 0 <= i && i <= nrecs && cursor == offset + i*reclen && len(col) == nrecs && fresh(col)
+//@ loop 0 invariant #read: forall(k, 0, i, col[k] == le32(data, offset + k*reclen))
+//@ loop 0 decreases nrecs - i
+//@ ensures #len: len(col) == nrecs
+//@ ensures #exact: forall(k, 0, nrecs, col[k] == le32(data, offset + k*reclen))
+
+//@ func getUInt64Column
+//@ props C29
+//@ option nooverflow
+//@ requires #shape: 0 <= offset && 0 < reclen && 0 <= nrecs && (nrecs > 0 ==> reclen <= len(data))
+//@ requires #fits: nrecs > 0 ==> offset + (nrecs-1)*reclen + 8 <= len(data)
+//@ loop 0 invariant #idx: 0 <= i && i <= nrecs && cursor == offset + i*reclen && len(col) == nrecs && fresh(col)
+//@ loop 0 invariant #read: forall(k, 0, i, col[k] == le64(data, offset + k*reclen))
+//@ loop 0 decreases nrecs - i
+//@ ensures #len: len(col) == nrecs
+//@ ensures #exact: forall(k, 0, nrecs, col[k] == le64(data, offset + k*reclen))
+
+//@ func getByteColumn
+//@ props C29
+//@ option nooverflow
+//@ requires #shape: 0 <= offset && 0 < reclen && 0 <= nrecs && (nrecs > 0 ==> reclen <= len(data))
+//@ requires #fits: nrecs > 0 ==> offset + (nrecs-1)*reclen + 1 <= len(data)
+//@ loop 0 invariant #idx: 0 <= i && i <= nrecs && cursor == offset + i*reclen && len(col) == nrecs && fresh(col)
+//@ loop 0 invariant #read: forall(k, 0, i, col[k] == le8(data, offset + k*reclen))
+//@ loop 0 decreases nrecs - i
+//@ ensures #len: len(col) == nrecs
+//@ ensures #exact: forall(k, 0, nrecs, col[k] == le8(data, offset + k*reclen))
+
+// The number of rows is the number of whole strides in the buffer, and row i is the i-th stride.
+//@ func (*Rows).GetNumRows
+//@ props C29
+//@ modifies mem:utils.io.Rows
+//@ ensures #count: rows.rowLen >= 0 ==> result == ite(rows.rowLen == 0 || len(rows.data) == 0, 0, len(rows.data) / rows.rowLen)
+//@ ensures #stride: rows.rowLen == ite(old(rows.rowLen) != 0, old(rows.rowLen), shapesLen(base(rows.dataShape), len(rows.dataShape))) && rows.data == old(rows.data) && rows.dataShape == old(rows.dataShape)
+
+//@ func (*Rows).GetRow
+//@ props C29
+//@ option nooverflow
+//@ modifies mem:utils.io.Rows
+//@ requires #inRange: 0 <= i && i <= 1000000000000 && ite(rows.rowLen != 0, rows.rowLen, shapesLen(base(rows.dataShape), len(rows.dataShape))) >= 0 && ite(rows.rowLen != 0, rows.rowLen, shapesLen(base(rows.dataShape), len(rows.dataShape))) <= 1000000 && (i+1) * ite(rows.rowLen != 0, rows.rowLen, shapesLen(base(rows.dataShape), len(rows.dataShape))) <= len(rows.data)
+//@ ensures #row: len(result) == rows.rowLen && base(result) == base(rows.data) + i*rows.rowLen
